@@ -468,6 +468,91 @@ def sql_rows_check(sd, n):
     return bad, nops
 
 
+def dir_entries_check(sd, n):
+    """DirStep.dir_step (extracted, naming = identity on integers) against a real dir_archive on integer
+    keys/values: the result of every operation AND the entry directories (name, stored key, stored value)"""
+    import dill
+    import klepto.archives as ar
+    rng = random.Random('C03dir-%d' % sd)
+    sc = Scratch()
+    bad = []
+    nops = 0
+
+    def entries(root):
+        out = []
+        for d in sorted(os.listdir(root)):
+            if not d.startswith('K_') or d.startswith('K_.I_'):
+                continue
+            name = int(d[2:].replace('_', '-'))
+            with open(os.path.join(root, d, 'output.pkl'), 'rb') as f:
+                val = dill.load(f)
+            ip = os.path.join(root, d, 'input.pkl')
+            key = name
+            if os.path.exists(ip):
+                with open(ip, 'rb') as f:
+                    key = dill.load(f)
+            out.append((name, key, val))
+        return sorted(out)
+    try:
+        for case in range(n):
+            path = sc.new('.d')
+            a = ar.dir_archive(path, cached=False)
+            lines, got = ['d.mode dir', 'd.reset'], ['ok', 'ok']
+            for _ in range(rng.randint(5, 25)):
+                k, v = rng.randint(-2, 4), rng.randint(10, 99)
+                kind = rng.choice(['set', 'set', 'get', 'del', 'contains', 'len', 'getd', 'pop', 'popd', 'popkeys', 'popkeysd', 'setdefault', 'update', 'clear', 'items'])
+                try:
+                    if kind == 'set':
+                        a[k] = v; lines.append('d.set %d %d' % (k, v)); got.append('unit')
+                    elif kind == 'get':
+                        lines.append('d.get %d' % k); got.append('val %d' % a[k])
+                    elif kind == 'del':
+                        lines.append('d.del %d' % k); del a[k]; got.append('unit')
+                    elif kind == 'contains':
+                        lines.append('d.contains %d' % k); got.append('bool %d' % (1 if k in a else 0))
+                    elif kind == 'len':
+                        lines.append('d.len'); got.append('len %d' % len(a))
+                    elif kind == 'getd':
+                        lines.append('d.getd %d %d' % (k, v)); got.append('val %d' % a.get(k, v))
+                    elif kind == 'pop':
+                        lines.append('d.pop %d' % k); got.append('val %d' % a.pop(k))
+                    elif kind == 'popd':
+                        lines.append('d.popd %d %d' % (k, v)); got.append('val %d' % a.pop(k, v))
+                    elif kind == 'popkeys':
+                        ks = [rng.randint(-2, 4) for _ in range(rng.randint(0, 3))]
+                        lines.append('d.popkeys ' + ' '.join(map(str, ks))); got.append(('vals ' + ' '.join(str(x) for x in a.popkeys(ks))).strip())
+                    elif kind == 'popkeysd':
+                        ks = [rng.randint(-2, 4) for _ in range(rng.randint(0, 3))]
+                        lines.append('d.popkeysd %d %s' % (v, ' '.join(map(str, ks)))); got.append(('vals ' + ' '.join(str(x) for x in a.popkeys(ks, v))).strip())
+                    elif kind == 'setdefault':
+                        lines.append('d.setdefault %d %d' % (k, v)); got.append('val %d' % a.setdefault(k, v))
+                    elif kind == 'update':
+                        m = dict((rng.randint(-2, 4), rng.randint(10, 99)) for _ in range(rng.randint(0, 3)))
+                        lines.append('d.update ' + ' '.join('%d %d' % p for p in m.items())); a.update(m); got.append('unit')
+                    elif kind == 'clear':
+                        lines.append('d.clear'); a.clear(); got.append('unit')
+                    elif kind == 'items':
+                        lines.append('d.items'); got.append('items*' + ' '.join(sorted('%d:%d' % p for p in a.items())))
+                except KeyError:
+                    got.append('keyerror')
+                lines.append('d.entries'); got.append(('entries ' + ' '.join('%d:%d:%d' % e for e in entries(path))).strip())
+            out = run_model(lines)
+            nops += len(lines)
+            for ln, o, g in zip(lines, out, got):
+                o = o.strip()
+                if g.startswith('items*'):
+                    o = 'items*' + ' '.join(sorted(o.split()[1:]))
+                if o != g.strip():
+                    bad.append((ln, o, g))
+                    break
+            if len(bad) > 3:
+                break
+        run_model(['d.mode dict'])
+    finally:
+        sc.close()
+    return bad, nops
+
+
 def _worker(args):
     sd, lo, hi, nops = args
     scratch = Scratch()
@@ -540,9 +625,11 @@ def main():
     results = []
     spec_bad, spec_n = [], 0
     sql_bad, sql_n = [], 0
+    dir_bad, dir_n = [], 0
     if pinfo.get('build_ok'):
         spec_bad, spec_n = spec_check(sd, 400 if thorough else 60)
         sql_bad, sql_n = sql_rows_check(sd, 300 if thorough else 60)
+        dir_bad, dir_n = dir_entries_check(sd, 300 if thorough else 60)
         nproc = min(16, os.cpu_count() or 4)
         chunk = max(7, n // (nproc * 3))
         jobs = [(sd, lo, min(lo + chunk, n), nops) for lo in range(0, n, chunk)]
@@ -556,6 +643,9 @@ def main():
     if sql_bad:
         rep.violation('the SQL-table model (coq/Store/Backends.v: sql_step) disagrees with sqltable_archive: after %r the model gives %r, the table %r' % sql_bad[0],
                       {'broken': 'coq/Store/Backends.v sql_step vs klepto sqltable_archive (results and rows)', 'cases': sql_bad[:5]}, no_input=True)
+    if dir_bad:
+        rep.violation('the directory model (coq/Store/DirStep.v: dir_step) disagrees with dir_archive: after %r the model gives %r, the directory %r' % dir_bad[0],
+                      {'broken': 'coq/Store/DirStep.v dir_step vs klepto dir_archive (results and entry directories)', 'cases': dir_bad[:5]}, no_input=True)
     seen = set()
     kinds = {}
     per = {}
@@ -623,6 +713,7 @@ def main():
                             'the dict specification coq/Store/DictSpec.v, compared with a Python dict on %d operations this run' % spec_n,
                             'backend models (file / sql table / directory) proved to refine it; the real backends compared with a Python dict after every step',
                             'the SQL-table model compared with the real table row by row (and result by result) on %d model commands this run' % sql_n,
+                            'the directory model compared with the real entry directories (name, key, value) and results on %d model commands this run' % dir_n,
                             'dill / json / repr+import round trips, sqlite3, the file system'],
            'theorems': pinfo.get('theorems', []), 'print_assumptions': pinfo.get('print_assumptions', ''),
            'evaluations': len(results), 'distinct_nontrivial': len([r for r in results if r.get('n', 0) >= 5]),
